@@ -139,7 +139,7 @@ func gDoc(d docOut) string {
 		}
 		return "(" + gStr(n.Ty) + ", None)"
 	})
-	return "{| do_codec := " + codec + "; do_from := " + gFrom(d.From) + "; do_called := " + gal.Bool(d.Called) +
+	return "{| do_codec := " + codec + "; do_from := " + gFrom(d.From) + "; do_called := " + gal.Bool(d.Called) + "; do_null := " + gal.Bool(d.Null) +
 		"; do_str := " + gOptStr(d.Str) + "; do_u64 := " + gOptZ(d.U64) + "; do_i64 := " + gOptZ(d.I64) +
 		"; do_native := " + nat + "; do_res := " + gRes(d.Res) + " |}"
 }
